@@ -1,7 +1,7 @@
 (* Model/MwRt.v -- run-time support for the Gallina functions that tools/genmw generates from middleware.go
    (coq/Gen/MwSrc.v): the state a handler mutates, and the multi-valued Go primitives as total functions. *)
 Require Import Base.Bytes Gen.Tables Model.Util Model.Headers Model.Methods Model.Origins Model.Pattern Model.Radix
-  Model.Netip Model.CfgErrors Model.Config Model.CfgRt Model.Serve Model.Mw.
+  Model.Netip Model.CfgErrors Model.Config Model.CfgRt Model.Serve Model.Mw Model.LoopRt.
 
 (* what the translated code mutates: the response header map (w.Header() / resHdrs), the local buffer map of
    handleCORSPreflight (buf), the status passed to w.WriteHeader, and whether the wrapped handler was invoked *)
@@ -31,7 +31,6 @@ Definition lookup2 (h : hmap) (k : bytes) : list bytes * bool :=
   end.
 
 (* origins.Parse: (origin, ok); the origin is the zero value when ok is false *)
-Definition zero_origin : origin := {| oscheme := []; ohost := {| hvalue := []; assume_ip := false |}; oport := 0%Z |}.
 Definition parse2 (s : bytes) : origin * bool :=
   match parse s with
   | Some o => (o, true)
